@@ -141,6 +141,23 @@ fn history_ops(h: usize) -> (String, Vec<Op>) {
             b.push(Op::MRemoveAll { slot: 1, k: Val::U(1), consume: Consume::All });
             ops.push(txn(CommitMode::TwoPhase, b));
         }
+        4 => {
+            name = "deep-multimap";
+            // the multimap's KEY tree gets three levels, with value subtrees hanging off leaves
+            // that are not children of the root
+            let mut b = vec![open(0, "m", M_UU)];
+            for k in 0..220u64 {
+                b.push(Op::MInsert { slot: 0, k: Val::U(1000 + k), v: Val::U(k) });
+            }
+            for v in 0..45u64 {
+                b.push(Op::MInsert { slot: 0, k: Val::U(1060), v: Val::U(5000 + v) });
+                b.push(Op::MInsert { slot: 0, k: Val::U(1160), v: Val::U(6000 + v) });
+            }
+            ops.push(txn(CommitMode::OnePhase, b));
+            ops.push(txn(CommitMode::OnePhase, vec![Op::PSave]));
+            let b = vec![open(0, "m", M_UU), Op::MInsert { slot: 0, k: Val::U(3), v: Val::U(9) }];
+            ops.push(txn(CommitMode::OnePhase, b));
+        }
         _ => {
             name = "three-level";
             ops.push(txn(CommitMode::OnePhase, vec![Op::PSave]));
@@ -169,11 +186,11 @@ pub struct BaseSpec {
 
 pub fn base_specs(tier: &str) -> Vec<BaseSpec> {
     let (hs, cfgs): (Vec<usize>, Vec<Cfg>) =
-        if tier == "quick" { (vec![0], vec![CFG_A]) } else { (vec![0, 1, 2, 3], vec![CFG_A, CFG_B]) };
+        if tier == "quick" { (vec![0, 4], vec![CFG_A]) } else { (vec![0, 1, 2, 3, 4], vec![CFG_A, CFG_B]) };
     let mut v = vec![];
     for cfg in &cfgs {
         for h in &hs {
-            if *h == 3 && *cfg == CFG_B {
+            if (*h == 3 || *h == 4) && *cfg == CFG_B {
                 // the three-level history runs on the first configuration only (time budget)
                 continue;
             }
@@ -687,6 +704,9 @@ pub fn build_base(spec: &BaseSpec) -> Result<Base, String> {
     if let Some(m) = dec.tables.get("m") {
         if m.pages.len() < 2 {
             return Err("harness: multimap m has no subtree pages".into());
+        }
+        if spec.history == 4 && m.tree_height < 3 {
+            return Err(format!("harness: the key tree of multimap m has height {} in the deep-multimap history", m.tree_height));
         }
     } else {
         return Err("harness: multimap m missing".into());
